@@ -32,6 +32,19 @@ def child_setup(env):
         objs["lk", no] = lock.ParallelMailboxLock(objs["lf"], no)
         return True
 
+    def loop_newlock(key, path, no):
+        """a master object of its own for another EtherCAT loop (its own lock file); the lock comes from the master's get_mbx_lock"""
+        from ebpfcat.ebpfcat import ParallelEtherCat
+        ec = ParallelEtherCat(f"verif{key}")
+        ec.mbx_lock_file = lock.LockFile(path, 1000, 1010)
+        objs["ec", key] = ec
+        objs["lf", key] = ec.mbx_lock_file
+        objs["lk", key] = ec.get_mbx_lock(no)
+        return True
+
+    def loop_peek(key, off):
+        return list(os.pread(objs["lf", key].fd, 1, off))
+
     def t_enter(no):
         state["t", no] = loop.create_task(objs["lk", no].__aenter__())
         return t_poll(no)
@@ -84,7 +97,7 @@ def child_setup(env):
 
     return {"open": do_open, "newlock": do_newlock, "enter": do_enter, "poll": do_poll,
             "send": do_send, "exit": do_exit, "peek": do_peek, "copydrop": do_copydrop,
-            "t_newlock": t_newlock, "t_enter": t_enter, "t_poll": t_poll, "t_send": t_send, "t_exit": t_exit}
+            "t_newlock": t_newlock, "loop_newlock": loop_newlock, "loop_peek": loop_peek, "t_enter": t_enter, "t_poll": t_poll, "t_send": t_send, "t_exit": t_exit}
 
 
 class C15(Check):
@@ -161,7 +174,7 @@ class C15(Check):
             script = []
             for _ in range(rng.randint(10, 30)):
                 script.append((rng.randrange(2), rng.choice(["enter", "poll", "send", "send", "exit", "copydrop"]), rng.randrange(2)))
-            out.append({"kind": "C", "n": 2, "script": script})
+            out.append({"kind": "C", "n": 2, "script": script, "loops": rng.random() < 0.4})
         return out
 
     # ------------------------------------------------------------------ A
@@ -328,12 +341,20 @@ class C15(Check):
         evs, trace, viol = {0: ["init"], 1: ["init"]}, {0: [], 1: []}, []
         sst = {}
         try:
+            two_loops = case.get("loops", False)
             for k in kids:
                 r = k.call("open", path, 1000, 1010)
                 if r[0] != "ok":
                     return Err(7, f"open failed: {r}")
-                for no in self.TERMS:
-                    k.call("t_newlock", no)
+                if two_loops:
+                    # the two "terminals" have the SAME station address 1003 on two different loops (two masters, two lock files)
+                    for key, pth in ((self.TERMS[0], path), (self.TERMS[1], path + "_b")):
+                        r = k.call("loop_newlock", key, pth, 1003)
+                        if r[0] != "ok":
+                            return Err(7, f"creating the master / lock of a loop failed: {r}")
+                else:
+                    for no in self.TERMS:
+                        k.call("t_newlock", no)
             def entered(p, t):
                 other = [q for q in range(2) if q != p and sst.get((q, t)) == "in"]
                 if other:
@@ -381,7 +402,7 @@ class C15(Check):
                     evs[t] += [("write", p), ("unlock", p)]
                     sst[(p, t)] = "idle"
                     refresh(p)
-            bytes_ = [kids[1].call("peek", no - 1000) for no in self.TERMS]
+            bytes_ = [kids[1].call("loop_peek", no, 3) for no in self.TERMS] if two_loops else [kids[1].call("peek", no - 1000) for no in self.TERMS]
             return {"evs": evs, "trace": trace, "viol": viol, "byte": [b[1] if b[0] == "ok" else None for b in bytes_],
                     "st": {t: ["in" if sst.get((p, t)) == "in" else "idle" for p in range(2)] for t in (0, 1)}}
         finally:
@@ -551,7 +572,7 @@ class C15(Check):
         return ("A: 2-4 tasks in one event loop doing 1-3 exchanges of 1-3 messages each on one MailboxLock or one ParallelMailboxLock, random yields; "
                 "B: 2-3 real processes sharing one lock file, commands (enter/poll/send/exit, creator's late initialisation) interleaved by the harness, half of "
                 "the cases start inside the creation window; C: two processes each using TWO terminals on the shared lock file (an exchange with one terminal running "
-                "while exchanges with the other begin and end, and pickled copies of the lock file object come and go); non-trivial = at least 4 log entries / messages")
+                "while exchanges with the other begin and end, and pickled copies of the lock file object come and go; 40%: the two terminals have the same station address on two different loops - two master objects and lock files per process, locks from get_mbx_lock); non-trivial = at least 4 log entries / messages")
 
     def distribution(self, cases, observed):
         d = {"A": 0, "B": 0, "C": 0, "B_window": 0, "messages": 0, "blocked_enters": 0}
